@@ -649,9 +649,128 @@ def extreme_values(case):
             'stats': {'extreme_value_programs': 1, 'activations': sess.n}}
 
 
+def crowds_at_the_edge(case):
+    """many activities asking the same primitive for the last of something in one time step: a
+    closed queue with fewer buffered items than readers, the last unit of a resource claimed by
+    several, a lock freed for a crowd, a flag toggled by its own waiters. Every one of them gets
+    an answer of the documented kind (an item or StreamClosed, the unit or ResourcesUnavailable)
+    and the run ends normally."""
+    import usim
+    from usim import time, Scope, Queue, Channel, Lock, Resources, Capacities, Flag, StreamClosed
+    from usim import ResourcesUnavailable, instant
+    rng = random.Random('%s/%s/c03-crowd' % (case['seed'], case['index']))
+    readers = rng.randint(2, 6)
+    buffered = rng.randint(0, readers - 1)
+    closed_early = rng.random() < 0.7
+    start = rng.choice([0, 0, 3, -2, 2.0 ** 60])
+    log = []
+    queue, channel, lock, gate = Queue(), Channel(), Lock(), Flag()
+    supply = (Resources if rng.random() < 0.5 else Capacities)(a=1)
+    modes = [rng.choice(['get', 'iter', 'get-twice']) for _ in range(readers)]
+
+    async def reader(number, mode):
+        await (time + 5)
+        try:
+            if mode == 'iter':
+                async for item in queue:
+                    log.append(('reader', number, item))
+            else:
+                log.append(('reader', number, await queue))
+                if mode == 'get-twice':
+                    log.append(('reader', number, await queue))
+        except StreamClosed:
+            pass
+        log.append(('reader', number, 'closed'))        # (or served)
+
+    async def listener(number):
+        await (time + 5)
+        try:
+            log.append(('listener', number, await channel))
+        except StreamClosed:
+            log.append(('listener', number, 'closed'))
+
+    async def claimant(number):
+        await (time + 5)
+        try:
+            async with supply.claim(a=1):
+                log.append(('claimant', number, 'got it'))
+                await instant
+        except ResourcesUnavailable:
+            log.append(('claimant', number, 'unavailable'))
+
+    async def contender(number):
+        await (time + 5)
+        async with lock:
+            log.append(('contender', number, 'inside'))
+        async with lock:
+            await instant
+
+    async def toggler(number):
+        await (time + 5)
+        await gate
+        await gate.set(False)
+        log.append(('toggler', number, 'through'))
+        await gate.set(True)
+
+    async def feeder():
+        for item in range(buffered):
+            await queue.put(item)
+        if closed_early:
+            await queue.close()
+            await channel.close()
+        await (time + 5)
+        if not closed_early:
+            await queue.close()
+            await channel.close()
+        await gate.set()
+
+    async def main():
+        async with Scope() as scope:
+            scope.do(feeder())
+            for number, mode in enumerate(modes):
+                scope.do(reader(number, mode))
+                scope.do(listener(number))
+                scope.do(claimant(number))
+                scope.do(contender(number))
+                scope.do(toggler(number))
+
+    sess = Session()
+    root = main()
+    root.__name__ = root.__qualname__ = 'crowd'
+    outcome = sess.run(root, start=start)
+    violations = [dict(v, case=dict(case)) for v in sess.violations
+                  if v['mechanism'].startswith('kernel-')]
+    what = '%d readers (%s) of a queue with %d items closed %s, as many listeners of a closed ' \
+           'channel, claimants of one unit, contenders of a lock, togglers of a flag, from time ' \
+           '%r' % (readers, modes, buffered, 'before they ask' if closed_early else
+                   'in the time step in which they ask', start)
+    if outcome[0] != 'ok':
+        violations.append({'mechanism': 'internal-error:%s' % type(outcome[1]).__name__,
+                           'case': dict(case),
+                           'msg': '%s: run() ended with %r' % (what, outcome[1])})
+    else:
+        items = sorted(entry[2] for entry in log if entry[0] == 'reader' and entry[2] != 'closed')
+        done = {kind: sum(1 for entry in log if entry[0] == kind and entry[2] in last)
+                for kind, last in (('reader', ('closed',)), ('listener', ('closed',)),
+                                   ('contender', ('inside',)), ('toggler', ('through',)))}
+        claims = [entry[2] for entry in log if entry[0] == 'claimant']
+        if items != list(range(buffered)) or any(count != readers for count in done.values()) \
+                or len(claims) != readers or 'got it' not in claims:
+            violations.append({'mechanism': 'large-program-wrong-outcome', 'case': dict(case),
+                               'msg': '%s: logged %s' % (what, log)})
+    try:
+        root.close()
+    except BaseException:  # noqa: B902
+        pass
+    return {'evals': 1, 'sigs': [sess.signature()], 'violations': violations,
+            'stats': {'crowd_programs': 1, 'activations': sess.n}}
+
+
 def run_case(case):
     if case.get('gen') == 'threads':
         return run_threads(case)
+    if case.get('plan') is None and case['index'] % 40 == 13:
+        return crowds_at_the_edge(case)
     if case.get('plan') is None and case['index'] % 40 == 37:
         return extreme_values(case)
     if case.get('plan') is None and case['index'] % 20 == 17:
